@@ -5,13 +5,13 @@ go 1.23.0
 require (
 	github.com/hedzr/is v0.7.13
 	github.com/hedzr/logg v0.0.0
+	gopkg.in/hedzr/errors.v3 v3.3.5
 )
 
 require (
 	golang.org/x/net v0.39.0 // indirect
 	golang.org/x/sys v0.32.0 // indirect
 	golang.org/x/term v0.31.0 // indirect
-	gopkg.in/hedzr/errors.v3 v3.3.5 // indirect
 )
 
 replace github.com/hedzr/logg => /repo
